@@ -167,7 +167,7 @@ func TestConcurrentCallers(t *testing.T) {
 			}
 		}
 		hx.C.AddMs(uint64(rapid.SampledFrom([]int{0, 1, 50, 100, 200, 500, 1000}).Draw(t, "gap")))
-		ng := rapid.IntRange(2, 3).Draw(t, "callers")
+		ng := rapid.IntRange(2, 4).Draw(t, "callers")
 		calls := make([]*call, ng)
 		hx.C.OnSleep = func(d time.Duration) {
 			if cur := s.Current(); cur != nil {
